@@ -213,6 +213,14 @@ func (vm *VM) BeginScope() {
 	}
 }
 
+// BeginJoinedScope - see Scope.BeginJoinedScope
+func (vm *VM) BeginJoinedScope() {
+	scope := vm.getCurrentScope()
+	if scope != nil {
+		scope.BeginJoinedScope()
+	}
+}
+
 // EndScope - end current scope
 func (vm *VM) EndScope() {
 	scope := vm.getCurrentScope()
